@@ -18,11 +18,25 @@ package datamatrix
 //@   attr fresh_result ? 0 256
 //@   ensures fresh(result)
 
+// ISO 16022 5.2.3: the first pad is 129, every further pad at 1-based codeword position p is the
+// 253-state randomisation of 129
+//@ define pad253(p int) int = (129 + ((149*p) % 253) + 1 > 254) ? (129 + ((149*p) % 253) + 1 - 254) : (129 + ((149*p) % 253) + 1)
+
 //@ func addPadding
 //@   attr unwind_abstract select
 //@   attr fresh_result toCount 0 256
-//@   requires len(data) <= toCount
+//@   requires 0 <= len(data) && len(data) <= toCount && toCount <= 4096
+//@   modifies data[len(data):]
 //@   ensures len(result) == toCount
+//@   ensures forall k int :: 0 <= k && k < len(data) ==> result[k] == old(data[k])
+//@   ensures len(data) < toCount ==> result[len(data)] == 129
+//@   ensures forall k int :: len(data) < k && k < toCount ==> result[k] == pad253(k+1)
+//@   loop 1 invariant len(data0) < toCount ==> (len(data0) < len(data) && len(data) <= toCount && data[len(data0)] == 129)
+//@   loop 1 invariant len(data0) >= toCount ==> data == data0
+//@   loop 1 invariant fresh(data) || (data.ref == data0.ref && data.off == data0.off && cap(data) == cap(data0))
+//@   loop 1 invariant forall k int :: 0 <= k && k < len(data0) ==> data[k] == old(data0[k])
+//@   loop 1 invariant forall k int :: len(data0) < k && k < len(data) ==> data[k] == pad253(k+1)
+//@   loop 1 decreases toCount - len(data)
 
 //@ func (*errorCorrection).calcECC
 //@   attr unwind_abstract select
